@@ -34,8 +34,8 @@ Inductive view :=
 | VList (id : opid) (l : list (view * bool))
 | VText (id : opid) (u : list N).                        (* units of the text in the document's encoding *)
 
-Definition ventry := (view * bool)%type.
-Definition vmap := list (list N * ventry).
+Notation ventry := (view * bool)%type (only parsing).
+Notation vmap := (list (list N * (view * bool))) (only parsing).
 
 Definition view_id (v : view) : option opid :=
   match v with VScalar _ => None | VMap id _ | VList id _ | VText id _ => Some id end.
